@@ -23,6 +23,8 @@ def space_s(must=('Floor',), max_types=None, allow_box=True):
         types = [t for t, b in zip(pool, bits) if b or t in must]
         if max_types is not None:
             types = types[:max_types]
+        if types == ['Box']:
+            types = ['Floor', 'Box']  # a box needs a declared content type
         return {'types': types, 'colors': ['NONE'] + [c for c, b in zip(REAL_COLORS, cbits) if b]}
 
     bits = st.one_of(st.just([True] * len(pool)), st.lists(st.booleans(), min_size=len(pool), max_size=len(pool)))
